@@ -64,6 +64,15 @@ def contracts():
     cs.append(Post('core.Path.from_t', helpers='h_path', cases=[
         Case('any', args={'self': 'inst:core.Path'}, requires=REP + ['ops(self)[0] is T or ops(self)[0] is S'],
              ensures=['ops(result)[0] is T', 'same(ops(result)[1:], ops(self)[1:])'])]))
+    # repr of slice arguments: a bound is omitted exactly when it is None (so that eval(repr(x)) denotes the same slice)
+    for shape in ('int,int,none', 'int,none,none', 'none,int,none', 'none,none,none', 'int,int,int', 'none,none,int', 'int,none,int', 'none,int,int'):
+        a, b, c = shape.split(',')
+        txt = lambda part, kind: ('bbrepr(x.%s)' % part) if kind == 'int' else "''"
+        exp = "%s + ':' + %s" % (txt('start', a), txt('stop', b))
+        if c == 'int':
+            exp += " + ':' + %s" % txt('step', c)
+        cs.append(Post('core._format_slice', label='core._format_slice[%s]' % shape, cases=[
+            Case('slice', args={'x': 'slice:' + shape}, ensures=['result == ' + exp])]))
     # pickling: __setstate__(__getstate__(x)) restores the ops exactly, for each of the three roots
     cs.append(Post('h_path.pickle_roundtrip', helpers='h_path', label='LEMMA C18.pickle', cases=[
         Case(root, args={'x': 'inst:core.TType', 'fresh': 'inst:core.TType'}, requires=['len(x.__ops__) >= 1', 'x.__ops__[0] is %s' % root],
